@@ -458,6 +458,15 @@ Views(T) ==
                 ifaces |-> UNION {NodeIfs(T, n) : n \in ViewNodes(T)},
                 comps |-> UNION {KidsOf(T, n, CO) : n \in ViewNodes(T)}])
 \* the interfaces a service / dedicated-port handle reports (cached on the handle) = those of a fresh lookup
+\* navigation primitives everything else is built on (Topology.get_parent_element / get_owner_node and the typed-model
+\* lookups find_*_by_name / get_all_*): beyond the listed properties, judged separately (never a verdict on a property)
+Navigate(T, p) ==
+    IF ~Has(T, p) THEN Fail(T, "NoSuchElement")
+    ELSE R(T, "ok", [k |-> "nav",
+                     parent |-> IF Cls(T, p) \in {NN, LK} THEN "" ELSE T.el[p].par,
+                     owner  |-> IF Cls(T, p) \in {NN, LK} THEN "" ELSE OwnerNode(T, p),
+                     comps  |-> NamesOf(T, KidsOf(T, p, CO)), svcs |-> NamesOf(T, KidsOf(T, p, NS)),
+                     ifs    |-> IF Cls(T, p) = LK THEN NamesOf(T, LinkEnds(T, p)) ELSE NamesOf(T, KidsOf(T, p, CP))])
 HandleIfs(T, p) == IF ~Has(T, p) THEN Fail(T, "NoSuchElement") ELSE R(T, "ok", [k |-> "ifs", v |-> NamesOf(T, KidsOf(T, p, CP))])
 
 \* ------------------------------------------------------------------ validation (C10)
@@ -632,6 +641,7 @@ ApplyRaw(T, o) ==
       [] o.op = "UnsetProp"      -> UnsetProp(T, o.p, o.kind, o.pname)
       [] o.op = "Views"          -> Views(T)
       [] o.op = "HandleIfs"      -> HandleIfs(T, o.p)
+      [] o.op = "Navigate"       -> Navigate(T, o.p)
       [] o.op = "Validate"       -> Validate(T)
       \* the live constraint tables must equal the pinned ones (a silent edit of the tables is reported as such)
       [] o.op = "ConstraintTables" -> R(T, "ok", [k |-> "tables", svc |-> ServiceConstraints, node |-> NodeConstraints, link |-> LinkLayer])
